@@ -206,7 +206,9 @@ fn overwrite_then_remove() {
     };
     let look = Script::new()
         .then(Step::QueryRaw { tag: "raw".into(), addr: k1.to_string(), key: Binary::from(b"flag".to_vec()) })
-        .then(Step::QuerySmartGet { tag: "smart".into(), addr: k1.to_string(), key: "flag".into() });
+        .then(Step::QuerySmartGet { tag: "smart".into(), addr: k1.to_string(), key: "flag".into() })
+        .then(Step::QuerySmartList { tag: "list_asc".into(), addr: k1.to_string(), descending: false })
+        .then(Step::QuerySmartList { tag: "list_desc".into(), addr: k1.to_string(), descending: true });
     let outer = Script::new()
         .sub(WasmMsg::Execute { contract_addr: k1.to_string(), msg: first.bin(), funds: vec![] }, ReplyOn::Never, 1, None)
         .sub(WasmMsg::Execute { contract_addr: k1.to_string(), msg: second.bin(), funds: vec![] }, ReplyOn::Success, 2, Some(look));
@@ -230,6 +232,28 @@ fn overwrite_then_remove() {
     }
     if let Some(b) = bytes(&trace, "smart") {
         check_native("smart_query_sees_completed_effects_and_no_rolled_back_ones", b == want, || format!("variant {} got {:?} want {:?}", variant, b, want));
+    }
+    // iterating queries see the same state as point lookups (seed C10e)
+    let mut listed: Vec<(Vec<u8>, Vec<u8>)> = vec![];
+    if let Some(x) = &want {
+        listed.push((b"flag".to_vec(), x.clone()));
+    }
+    if variant == 3 {
+        listed.push((b"other".to_vec(), b"x".to_vec()));
+    }
+    for (tag, desc) in [("list_asc", false), ("list_desc", true)] {
+        let mut exp = listed.clone();
+        if desc {
+            exp.reverse();
+        }
+        match obs(&trace, tag) {
+            Some(Obs::Range(got)) => {
+                check_native("iterating_query_sees_completed_effects_and_no_rolled_back_ones", *got == exp, || format!("variant {} {}: got {:?} want {:?}", variant, tag, got, exp));
+            }
+            other => {
+                check_native("iterating_query_answers", false, || format!("{:?}", other));
+            }
+        }
     }
     let raw = w.app.wrap().query_wasm_raw(k1.to_string(), b"flag".to_vec()).unwrap();
     check_native("app_query_sees_committed_state", raw == want, || format!("{:?}", raw));
